@@ -1,6 +1,7 @@
 import Exetera.Lemmas.CsvDriverThm
 import Exetera.Lemmas.CsvWindow
 import Exetera.Lemmas.CsvLoopThm
+import Exetera.Lemmas.CsvReadCsv
 /-!
 # C05 — CSV import reproduces the file's records exactly, independent of chunking
 
@@ -14,7 +15,7 @@ An `.ok` result means: every subscript of the compiled kernel was in bounds, no 
 within its fuel `len(source) + 1` (termination), and the driver ended within the given number of kernel calls.
 
 Proved for all inputs: `fsm_whole_eq_spec`, `fsm_split_at_record_end`, `fsm_window_eq_spec`,
-`import_single_window_eq_spec`, `window_chunking_unobservable_partial`, `chunk_size_unobservable_partial`,
+`import_single_window_eq_spec`, `window_chunking_unobservable_partial`, `chunk_size_unobservable_partial`, `read_csv_eq_spec_partial`,
 `include_exclude_selects`. Not proved (kept visible below as comments): the full `window_chunking_unobservable` (every starting budget ≥ 1) and
 `regrowth_unobservable` — the runs in which a staging buffer fills and is enlarged; they are supported by the exhaustive
 small-scope and random correspondence only.
@@ -214,6 +215,27 @@ theorem chunk_size_unobservable_partial {file : List Nat} {crs₁ crs₂ ncols :
   obtain ⟨c2, e2⟩ := window_chunking_unobservable_partial h₂ im him fuel hfuel
   exact ⟨_, _, e1, e2, rfl, rfl⟩
 
+/-- **read_csv_eq_spec_partial.** The public entry point `read_csv_with_schema_dict` on a file whose columns are all imported
+    as indexed strings (`String()` in the schema, or missing from it), for any include / exclude lists of known names and
+    every `chunk_row_size` in the supported regime (no regrowth: every column holds fewer than
+    `INDEXED_STRING_FIELD_SIZE · chunk_row_size` bytes, no record of empty cells only): the destination frame holds exactly
+    the selected columns (`fieldsToUse`, in file order), each with exactly the records' cell values, and `rows` (the length
+    of `j_valid_from`) is the number of records. -/
+theorem read_csv_eq_spec_partial {file : List Nat} {crs ncols : Nat} {hrow : List Cell} {rows : List (List Cell)}
+    (names : List String) (schema : List (String × FieldKind)) (incl excl : Option (List String))
+    (hall : ∀ k ∈ names, kindOf schema k = .indexed) (hnames : names.length = ncols)
+    (hincl : ∀ l, incl = some l → ∀ k ∈ l, k ∈ names) (hexcl : ∀ l, excl = some l → ∀ k ∈ l, k ∈ names)
+    (hfile : file = render (hrow :: rows) ∨ (file ++ [Csv.NL] = render (hrow :: rows) ∧ file.getLast? ≠ some Csv.NL))
+    (hne : file ≠ []) (hhdr : hrow.length = ncols ∧ ∀ c ∈ hrow, c.WF) (htab : Table ncols rows) (hcrs : 0 < crs)
+    (hreg : ∀ l ∈ hrow :: rows, (renderCells l).length ≤ crs * Gen.Csv.CHUNK_ROW_FACTOR * ncols)
+    (hmin : ∀ l ∈ hrow :: rows, ncols < (renderCells l).length)
+    (hfit : ∀ c, c < ncols → (column (values rows) c).flatten.length < Gen.Csv.INDEXED_STRING_FIELD_SIZE * crs)
+    (fuel : Nat) (hfuel : rows.length + 2 ≤ fuel) :
+    readCsv file names schema incl excl crs fuel =
+      .ok ⟨rows.length, (fieldsToUse names incl excl).map
+        (fun k => ⟨k, fieldOf (column (values rows) (names.idxOf k))⟩)⟩ :=
+  readCsv_windows names schema incl excl hall hnames hincl hexcl hfile hne hhdr htab.2 htab.1 hcrs hreg hmin hfit fuel hfuel
+
 theorem fieldsToUse_sublist (names : List String) (incl excl : Option (List String)) :
     (fieldsToUse names incl excl).Sublist names := by
   unfold fieldsToUse
@@ -318,6 +340,12 @@ example : (match readFile (render (exHeader :: exRows)) 3 2 [0, 100, 200] [0, 1]
                    [{ kind := .indexed }, { kind := .indexed }] 6 with
            | .ok o => decide (o = ⟨3, [fieldOf [[120], [121], []], fieldOf [[112, 44, 113], [114, 34, 115], [116, 10, 117]]],
                                    [1, 1, 1]⟩)
+           | .error _ => false) = true := by
+  decide +kernel
+
+/-- the public path on the example file: `include=["b","a"]`, `exclude=["a"]`, `chunk_row_size = 3` selects column `b` -/
+example : (match readCsv (render (exHeader :: exRows)) ["a", "b"] [("a", .indexed)] (some ["b", "a"]) (some ["a"]) 3 6 with
+           | .ok o => decide (o = ⟨3, [⟨"b", fieldOf [[112, 44, 113], [114, 34, 115], [116, 10, 117]]⟩]⟩)
            | .error _ => false) = true := by
   decide +kernel
 
